@@ -5,4 +5,3 @@ type caseOutcome struct {
 }
 
 func (r *runner) runCases(path string) {}
-func (r *runner) runTail(tier string)  {}
